@@ -180,7 +180,15 @@ class C13(WigBedProp):
                 tags.add("par_order_check")
         elif cls == "malformed":
             flat = sum(len(data[n]) for n in names[:ci]) + idx
-            bad = r.choice([f"{nm}\tabc\t10\t1", f"{nm}\t5", f"{nm}\t5\t-7\t1", f"{nm}\t5\t10\tnotanumber" if not bed else f"{nm}\t\t", f"{nm}"])
+            (s_, e_, x_) = data[nm][idx]
+            vtxt = x_ if bed else bbgen.bits_f32(x_)
+            # numbers too wide for the 32-bit coordinate whose LOW 32 bits are the line's own, valid coordinate: a parser that reads a
+            # wider integer and narrows it would accept the line as if nothing were wrong
+            wide = [f"{nm}\t{s_}\t{(1 << 32) + e_}\t{vtxt}", f"{nm}\t{(1 << 32) + s_}\t{e_}\t{vtxt}", f"{nm}\t{s_}\t{(1 << 40) + e_}\t{vtxt}",
+                    f"{nm}\t{s_}\t{(1 << 64) + e_}\t{vtxt}"]
+            bad = r.choice([f"{nm}\tabc\t10\t1", f"{nm}\t5", f"{nm}\t5\t-7\t1", f"{nm}\t5\t10\tnotanumber" if not bed else f"{nm}\t\t", f"{nm}"] + wide + wide)
+            if bad in wide:
+                tags.add("coordinate_wider_than_32_bits")
             raw_text = text_of(names, data, bed, (flat, bad))
         elif cls == "empty":
             data = {n: [] for n in names}
